@@ -534,11 +534,17 @@ impl<'a> Exec<'a> {
                         None
                     }
                 };
-                if let (Some(c), Codec::Native) = (&canon, codec) {
-                    if c != &bytes.0 {
+                // Literal bytes are identified by what was actually sent: if they decode but do
+                // not re-encode to themselves (an alias encoding), they are NOT the genuine
+                // message — the statements of C03/C04 say that any altered byte is rejected
+                let canon = match (canon, codec) {
+                    (Some(c), Codec::Native) if c != bytes.0 => {
                         self.stats.alias_skipped += 1;
+                        Stats::bump(&mut self.stats.probes, "alias_encoding_delivered");
+                        Some(bytes.0.clone())
                     }
-                }
+                    (c, _) => c,
+                };
                 self.wire.push((*kind, bytes.0.clone()));
                 Some(Resolved {
                     item: Item::bytes(*kind, *codec, bytes.0.clone()),
